@@ -10,6 +10,7 @@ def check(run):
     run.assumptions = ['tables without None cells where string concatenation is used (null + "x" is "nullx" in JS: not a common-meaning expression)',
                        'documented limitation not claimed: rbql-js keeps one module-global query context, concurrent JS queries interfere']
     ec.run_family_js(run, 'js-select', 'Q_C01a', 'R_2x2', maxA=2 if quick else 3)
+    ec.run_family_js(run, 'js-select-empty-strings', 'Q_C01a', 'R_2x2e', maxA=2)
     ec.run_family_js(run, 'js-except', 'Q_C01exc', 'R_w3N', maxA=1 if quick else 2, hdrmodes=(False, True))
     ec.run_family_js(run, 'js-order-distinct-top', 'Q_C02ok', 'R_2x2', maxA=2 if quick else 3)
     ec.run_family_js(run, 'js-join', 'Q_C04selQ' if quick else 'Q_C04selJS', 'R_q4' if quick else 'R_w2', recsB='R_q4' if quick else 'R_w2', maxA=2, maxB=2)
@@ -20,6 +21,7 @@ def check(run):
     ec.run_family_js(run, 'js-header', 'Q_C07', 'R_2x2', maxA=1, hdrmodes=(False, True), opts={'nontrivial_rule': 'header'})
     ec.run_family_js(run, 'js-header-join', 'Q_C07join', 'R_2x2', recsB='R_2x2', maxA=1, maxB=1, hdrmodes=(False, True))
     ec.run_family_js(run, 'js-aggregates', 'Q_C03js', 'R_num', maxA=2 if quick else 3)
+    ec.run_family_js(run, 'js-aggregates-zero-negative', 'Q_C03med', 'R_numz', maxA=3)
     ec.run_family_js(run, 'js-aggregates-mixed-width-numbers', 'Q_C03med', 'R_numw', maxA=3)
     ec.run_family_js(run, 'js-group-key-order', 'Q_C03key', 'R_keysp', maxA=3)
     ec.run_family_js(run, 'js-numeric-group-keys', 'Q_C03key', 'R_numk', maxA=3)
